@@ -74,7 +74,8 @@ type nestOp struct {
 
 func c13Ops(maxBatch int, classes []string, cond bool) []nestOp {
 	var ops []nestOp
-	ops = append(ops, nestOp{"SetNoNesting(true)", 0, nil, "set-true"}, nestOp{"SetNoNesting(false)", 0, nil, "set-false"}, nestOp{"SetNoNesting()", 0, nil, "toggle"}, nestOp{"NoNesting()", 0, nil, "toggle-deprecated"})
+	ops = append(ops, nestOp{"SetNoNesting(true)", 0, nil, "set-true"}, nestOp{"SetNoNesting(false)", 0, nil, "set-false"}, nestOp{"SetNoNesting()", 0, nil, "toggle"}, nestOp{"NoNesting()", 0, nil, "toggle-deprecated"},
+		nestOp{"NoNesting(true)", 0, nil, "set-true-deprecated"}, nestOp{"NoNesting(false)", 0, nil, "set-false-deprecated"})
 	if cond {
 		for _, cl := range classes {
 			ops = append(ops, nestOp{"SetExpression(" + cl + ")", 0, []string{cl}, "setexpr"})
@@ -137,8 +138,8 @@ func c13Machine(c *Ctx, kind string, maxL, maxBatch int, classes []string, cond 
 			var out []string
 			bad := func(k, f string, a ...any) { out = append(out, k+"\x00"+fmt.Sprintf(f, a...)) }
 			switch o.kind {
-			case "set-true", "set-false", "toggle", "toggle-deprecated":
-				want := map[string]bool{"set-true": true, "set-false": false, "toggle": !in.flag, "toggle-deprecated": !in.flag}[o.kind]
+			case "set-true", "set-false", "toggle", "toggle-deprecated", "set-true-deprecated", "set-false-deprecated":
+				want := map[string]bool{"set-true": true, "set-false": false, "toggle": !in.flag, "toggle-deprecated": !in.flag, "set-true-deprecated": true, "set-false-deprecated": false}[o.kind]
 				if in.isC {
 					switch o.kind {
 					case "set-true":
@@ -147,6 +148,10 @@ func c13Machine(c *Ctx, kind string, maxL, maxBatch int, classes []string, cond 
 						in.c.SetNoNesting(false)
 					case "toggle":
 						in.c.SetNoNesting()
+					case "set-true-deprecated":
+						in.c.NoNesting(true)
+					case "set-false-deprecated":
+						in.c.NoNesting(false)
 					default:
 						in.c.NoNesting()
 					}
@@ -158,6 +163,10 @@ func c13Machine(c *Ctx, kind string, maxL, maxBatch int, classes []string, cond 
 						in.s.SetNoNesting(false)
 					case "toggle":
 						in.s.SetNoNesting()
+					case "set-true-deprecated":
+						in.s.NoNesting(true)
+					case "set-false-deprecated":
+						in.s.NoNesting(false)
 					default:
 						in.s.NoNesting()
 					}
